@@ -302,6 +302,10 @@ func c10Gen(tier string, rng *rand.Rand, emit func(Case)) {
 	// data packages occurs (a data length of 0x80000000 only matters for a LONGCHAR / LONGBINARY column).
 	hostile := [][]byte{{0xff, 0xff, 0xff, 0x7f}, {0x00, 0x00, 0x00, 0x80}, {0xff, 0xff, 0xff, 0xff}, {0xff, 0x7f}, {0x00, 0x80}, {0xff, 0xff}}
 	sample := map[string]int{"row": 160, "params": 160, "rowfmt": 40, "rowfmt2": 40, "paramfmt": 40, "paramfmt2": 40}
+	nHostile, memEvery := 0, 60
+	if tier == "thorough" {
+		memEvery = 12
+	}
 	byKind := map[string][]validEnc{}
 	for _, e := range collectEncodings(tier, rng, 0) {
 		byKind[e.kind] = append(byKind[e.kind], e)
@@ -326,7 +330,13 @@ func c10Gen(tier string, rng *rand.Rand, emit func(Case)) {
 					}
 					m := append([]byte{}, body...)
 					copy(m[off:], h)
-					emit(Case{Line: fmt.Sprintf("pkg dec %s %s %s", hx(e.bytes[:1]), e.ctx, hx(m)), Kind: "hostile-length:" + e.kind})
+					l := fmt.Sprintf("pkg dec %s %s %s", hx(e.bytes[:1]), e.ctx, hx(m))
+					emit(Case{Line: l, Kind: "hostile-length:" + e.kind})
+					// allocation probe in a process of its own: a sample in the quick tier
+					nHostile++
+					if nHostile%memEvery == 0 {
+						emit(Case{Line: "mem " + l, Kind: "alloc-probe"})
+					}
 				}
 			}
 		}
@@ -344,6 +354,9 @@ func c10Impl(line string) string {
 	if strings.HasPrefix(line, "val ") {
 		return valuesImpl(line)
 	}
+	if strings.HasPrefix(line, "mem ") {
+		return memImpl(line)
+	}
 	return pkgImpl(line)
 }
 
@@ -351,6 +364,12 @@ func c10Impl(line string) string {
 var pendingTokens = map[byte]bool{}
 
 func c10Oracle(line, out string) string {
+	if strings.HasPrefix(line, "mem ") {
+		if out != "mem ok" {
+			return "no server input makes a parser allocate memory out of proportion to the bytes received"
+		}
+		return ""
+	}
 	if out == "panic" {
 		return "no server input makes a parser panic"
 	}
@@ -407,7 +426,8 @@ func init() {
 			return clause
 		},
 		Nontrivial: pkgNontrivial, NoShrink: true, Timeout: 30 * time.Second,
-		Rule: "valid encodings of every package kind with every byte (sampled on long ones) replaced by 00/01/7f/80/fe/ff, random multi-byte mutations with truncation and trailing garbage, hostile 2- and 4-byte little-endian values (0x7fffffff, 0x80000000, 0xffffffff, 0x7fff, 0x8000, 0xffff) at every offset of the first 28 bytes of encodings sampled evenly over every kind's generator (every data type of the format and data packages), and arbitrary bytes after each of the 256 token values; real ReadFrom under recover vs the Lean decoder (outcome class and fields must agree); packet level: the reader loop (Packet.ReadFrom per iteration) on streams of 1..3 packets with every announced length 0..16, every header type/status value, random header fields, truncations and read schedules vs the Lean reader model. value level: GoValue on every data type byte 0..255 with every data length 0..255 (zero, 0xff and random data) vs the Lean value model. Non-trivial = well-formed case",
-		Assumptions: []string{"allocation is bounded by the received bytes since PacketQueue.Bytes checks availability first (fix 31957a3); peak heap is not measured per case"},
+		Rule: "valid encodings of every package kind with every byte (sampled on long ones) replaced by 00/01/7f/80/fe/ff, random multi-byte mutations with truncation and trailing garbage, hostile 2- and 4-byte little-endian values (0x7fffffff, 0x80000000, 0xffffffff, 0x7fff, 0x8000, 0xffff) at every offset of the first 28 bytes of encodings sampled evenly over every kind's generator (every data type of the format and data packages), and arbitrary bytes after each of the 256 token values; real ReadFrom under recover vs the Lean decoder (outcome class and fields must agree); packet level: the reader loop (Packet.ReadFrom per iteration) on streams of 1..3 packets with every announced length 0..16, every header type/status value, random header fields, truncations and read schedules vs the Lean reader model. value level: GoValue on every data type byte 0..255 with every data length 0..255 (zero, 0xff and random data) vs the Lean value model; allocation probe: every 60th (thorough: 12th) hostile-length case again in a process of its own that measures what it allocates. Non-trivial = well-formed case",
+		NoModel:     func(line string) bool { return strings.HasPrefix(line, "mem ") },
+		Assumptions: []string{"allocation: PacketQueue.Bytes checks availability before allocating (fix 31957a3); measured for a sample of the hostile-length cases in a process of its own (TotalAlloc while decoding <= 4 MiB + 300 x case length, address space limited to 3 GiB)"},
 	})
 }
